@@ -6,6 +6,8 @@ except ImportError:
     import pickle
 
 
+from copy import copy
+
 import numpy as np
 
 
@@ -94,7 +96,11 @@ class FitInfoFile(object):
                     yield info
         else:
             for info in self._fits:
-                yield info
+                # Yield a copy so that selecting fits does not modify the
+                # results passed in by the caller
+                info_copy = copy(info)
+                info_copy.meta = info.meta
+                yield info_copy
 
 
 class FitInfoMeta(object):
